@@ -59,10 +59,12 @@ def run(ctx):
 
     # ---------------------------------------------------------------- false outcome
     place = m.book_fn("place_order")
-    q = m.ov(place)
 
     def kind_of(atoms):
         for a in atoms:
+            if a[0] == "cmp" and a[1] in ("eq", "ne") and a[2][0] == "field" and a[2][2] == "price" and a[3][0] == "phi" and len(a[3][1]) == 2 \
+                    and all(x[0] == "const" and x[3] in (0, 0xFFFFFFFF) for x in a[3][1]):
+                return "market" if a[1] == "eq" else "limit"    # price == match side { Bid => MAX, Ask => 0 }
             if a[0] == "cmp" and a[1] in ("eq", "ne") and a[2][0] == "field" and a[2][2] == "price" and a[3][0] == "const" and a[3][3] in (0, 0xFFFFFFFF):
                 return "market" if a[1] == "eq" else "limit"
             if a[0] == "bool" and a[1][0] == "phi" and all(x[0] == "bin" and x[1] == "Eq" and x[2][0] == "field" and x[2][2] == "price" and x[3][0] == "const" and x[3][3] in (0, 0xFFFFFFFF) for x in a[1][1]):
@@ -70,7 +72,8 @@ def run(ctx):
         return None
     sides_covered = set()
     n_off = 0
-    for blk in q.body.blocks:
+    for (S_, q) in [(S_, m.sv(place, S_)) for S_ in ("Bid", "Ask")]:
+      for blk in q.body.blocks:
         t = blk.term
         if blk.cleanup or not t or t.k != "switch":
             continue
@@ -88,8 +91,8 @@ def run(ctx):
             where = q.loc(t.sp)
             if kind == "market":
                 n_off += 1
-                sd = [a[2] for a in g if a[0] == "variant" and set(a[2]) <= {"Bid", "Ask"}]
-                sides_covered |= set(sd[0]) if sd else {"Bid", "Ask"}
+                sd = [(S_,)]
+                sides_covered.add(S_)
                 # (that the rejected order's end time is stamped - here or later - is C04's exit-state rule)
                 okw = set(fields) <= {"end_time", "status"} and "status" in fields and all(w.owner.endswith("Order") for w in ws) and any(status_const(w.val) == "Rejected" for w in ws)
                 ctx.check(okw and not calls, "reject", "slice|market|" + "".join(sorted(set(sd[0]) if sd else {"Bid", "Ask"})), where,
